@@ -35,6 +35,10 @@ type Case struct {
 	Code    int   `json:"code"`
 	Entries []int `json:"entries"` // kind ids, file order
 	Loaded  []int `json:"loaded"`  // positions, the spec's own sorted order (fed to the tag matcher)
+	// the dependency list the resolver is given: all queries as ranges in this order; SameChart: every
+	// dependency names the same chart (under aliases), else each names a chart of its own
+	SameChart bool  `json:"sameChart"`
+	DepOrder  []int `json:"depOrder"`
 }
 
 type Res struct {
@@ -295,7 +299,7 @@ func someArchive(dir string) []byte {
 
 func depName(q int) string { return fmt.Sprintf("d%d", q+1) }
 
-var missingRe = regexp.MustCompile(`"(d\d+)" \(repository`)
+var missingRe = regexp.MustCompile(`"(d\d+)" \(repository "[^"]*", version "([^"]*)"\)`)
 
 // deep: ChartDownloader.ResolveChartVersion and Manager.Update (internal/resolver) over a
 // configured repository whose cached index is the case's file.
@@ -344,7 +348,11 @@ func (c *ctx) deep(dir string, cs Case, o *Obs) {
 		os.MkdirAll(cdir, 0o755)
 		md := &chart.Metadata{APIVersion: "v2", Name: "parent", Version: "0.1.0"}
 		for _, q := range qs {
-			md.Dependencies = append(md.Dependencies, &chart.Dependency{Name: depName(q), Version: c.conc.Queries[q], Repository: repoURL})
+			d := &chart.Dependency{Name: depName(q), Version: c.conc.Queries[q], Repository: repoURL}
+			if cs.SameChart {
+				d.Name, d.Alias = depName(0), fmt.Sprintf("a%d", q+1)
+			}
+			md.Dependencies = append(md.Dependencies, d)
 		}
 		b, _ := yaml.Marshal(md)
 		os.WriteFile(filepath.Join(cdir, "Chart.yaml"), b, 0o644)
@@ -368,7 +376,13 @@ func (c *ctx) deep(dir string, cs Case, o *Obs) {
 			return nil, Res{Err: "Chart.lock unreadable: " + err.Error()}
 		}
 		locked = map[int]string{}
-		for _, d := range lock.Dependencies {
+		for i, d := range lock.Dependencies {
+			if cs.SameChart { // the lock keeps the order of the dependency list
+				if i < len(qs) {
+					locked[qs[i]] = d.Version
+				}
+				continue
+			}
 			var q int
 			fmt.Sscanf(d.Name, "d%d", &q)
 			locked[q-1] = d.Version
@@ -376,7 +390,21 @@ func (c *ctx) deep(dir string, cs Case, o *Obs) {
 		return locked, Res{}
 	}
 	var good []int
-	for q := range c.conc.Queries {
+	order := make([]int, 0, len(c.conc.Queries))
+	for _, q := range cs.DepOrder {
+		order = append(order, q-1)
+	}
+	if len(order) != len(c.conc.Queries) {
+		order = order[:0]
+		for q := range c.conc.Queries {
+			order = append(order, q)
+		}
+	}
+	byRange := map[string]int{}
+	for q, s := range c.conc.Queries {
+		byRange[s] = q
+	}
+	for _, q := range order {
 		if c.v.Cok[q] {
 			good = append(good, q)
 		} else { // a range that does not parse fails the whole resolution: one run each
@@ -406,6 +434,12 @@ func (c *ctx) deep(dir string, cs Case, o *Obs) {
 			}
 			miss := map[int]bool{}
 			for _, m := range ms {
+				if cs.SameChart { // all dependencies carry one name: the range tells them apart
+					if q, ok := byRange[m[2]]; ok {
+						miss[q] = true
+					}
+					continue
+				}
 				var q int
 				fmt.Sscanf(m[1], "d%d", &q)
 				miss[q-1] = true
